@@ -125,6 +125,9 @@ fn real_raw(src: &str) -> Result<Vec<(String, usize, Vec<Vec<Raw>>)>, String> {
                     b.iter()
                         .filter_map(|i| match i {
                             Ins::Assign { unit_const: true, .. } | Ins::Drop { .. } => None,
+                            // the model has one operand form for every operator `desugared_binop` turns into a runtime
+                            // call (`append` for strings, `concat` for lists): the function's name is not compared there
+                            Ins::Assign { to, value, .. } if value.starts_with("callrt concat ") => Some(Raw::Assign(format!("{to} = callrt append {}", value["callrt concat ".len()..].trim_end()))),
                             Ins::Assign { to, value, .. } => Some(Raw::Assign(format!("{to} = {}", value.trim_end()))),
                             Ins::SetDiscriminant { to, variant } => Some(Raw::Other(format!("setdisc {to} {variant}"))),
                             Ins::Return { var } => Some(Raw::Ret(var.clone())),
@@ -291,7 +294,11 @@ fn compare_mir(rep: &mut Report, drv: &mut Driver, src: &str, sx: &str, ident: &
     let ans = drv.ask(&format!("c08 mir {}", hex(sx)));
     let per_fn: Vec<&str> = ans.split(" || ").collect();
     if per_fn.iter().all(|a| a.trim() == "outside") {
+        // the lowering model is defined on every program that avoids three ill-typed shapes
+        // (`lowerProg_defined`); a program the compiler accepted has none of them, so the hypothesis
+        // `lowerProg fns = some P` of `lowerS_trace_partial` must hold for every generated program
         rep.hist("mir-model-vs-real", "outside the modelled fragment");
+        rep.mismatch("a program the compiler accepts is outside the fragment of the lowering model (`lowerProg` undefined: the hypothesis of lowerS_trace_partial is not met)", json!({"case": ident, "src": src}));
         return false;
     }
     let real = match catch_unwind(AssertUnwindSafe(|| real_raw(src))) {
@@ -309,6 +316,7 @@ fn compare_mir(rep: &mut Report, drv: &mut Driver, src: &str, sx: &str, ident: &
         let name = if i == last { "main".to_string() } else { format!("f{i}") };
         if a.trim() == "outside" {
             rep.hist("mir-model-vs-real", "function outside the modelled fragment");
+            rep.mismatch("a function the compiler accepts is outside the fragment of the lowering model (`lowerFn` undefined)", json!({"case": ident, "src": src, "function": name}));
             continue;
         }
         let model = match model_raw(a.trim()) {
@@ -770,6 +778,41 @@ fn corpus_desugared() -> Vec<(String, Prog)> {
                 main(Blk { stmts: decls(), last: Some(b(Concat(b(l.clone()), b(r.clone())))) }),
             ));
         }
+    }
+    // the same for `+` on lists (`List.concat`, the other user of `desugared_binop` in the generated
+    // language): ids 6: a List[i32], 7: a loop binder; the concatenation is logged by `emit_l(9, ..)`
+    {
+        use E::{ConcatL, List};
+        let el = |k: i32, v: E| Host(H_EMIT_L, vec![Int(k), v]);
+        let lmain = |body: Blk| Prog { fns: vec![Fn_ { params: vec![0, 1, 2], ret: T::I, body }], var_tys: vec![T::I, T::I, T::B, T::K, T::S, T::K, T::L, T::I] };
+        let ldecl = || S::Let(6, el(91, List(vec![Var(0), Int(5)])));
+        let llefts: Vec<(&str, E)> = vec![
+            ("a bare call", el(1, List(vec![Var(0)]))),
+            ("a bare variable", Var(6)),
+            ("a list literal with an effectful element", List(vec![em(1, Var(0)), Int(4)])),
+        ];
+        let lrights: Vec<(&str, E)> = vec![
+            ("a call with a call in its argument", el(2, el(3, List(vec![Var(1)])))),
+            ("a parenthesised concatenation", ConcatL(b(el(2, List(vec![Var(1)]))), b(el(3, List(vec![]))))),
+            ("a list literal with effectful elements", List(vec![em(2, Var(1)), em(3, Var(0))])),
+            ("a block that assigns the variable and logs", Block(Blk { stmts: vec![S::Do(Assign(6, b(el(2, List(vec![Int(7)])))))], last: Some(b(el(3, Var(6)))) })),
+            ("a block that may return", Block(Blk { stmts: vec![S::Do(If1(b(Var(2)), Blk { stmts: vec![S::Do(Ret(b(em(2, Int(5)))))], last: None }))], last: Some(b(el(3, List(vec![Var(1)])))) })),
+        ];
+        for (ln, l) in &llefts {
+            for (rn, r) in &lrights {
+                out.push((
+                    format!("list +: the left operand ({ln}) is evaluated before anything inside the right operand ({rn})"),
+                    lmain(Blk { stmts: vec![ldecl(), S::Do(el(9, ConcatL(b(l.clone()), b(r.clone()))))], last: Some(b(Int(0))) }),
+                ));
+            }
+        }
+        out.push((
+            "list +: a for loop over a concatenation (operands once, left to right, then the body per element)".to_string(),
+            lmain(Blk {
+                stmts: vec![ldecl(), S::Do(E::For(7, b(ConcatL(b(Var(6)), b(Block(Blk { stmts: vec![S::Do(Assign(6, b(el(1, List(vec![Int(8)])))))], last: Some(b(el(2, List(vec![Var(1), Int(3)])))) })))), Blk { stmts: vec![S::Do(em(3, Var(7)))], last: None }))],
+                last: Some(b(Int(0))),
+            }),
+        ));
     }
     out.push((
         "string +: the chain a + b + c, operands left to right".to_string(),
@@ -1237,7 +1280,7 @@ fn main() {
             if total_viol > rep.impl_violations.len() {
                 rep.notes.push(format!("{total_viol} violations found; the {} smallest with distinct keys are reported", rep.impl_violations.len()));
             }
-            rep.notes.push(format!("programs generated: {from}; argument tuples per program: 8; corpus programs: {} ({} one per clause of the statement; {} implicit host calls: f-strings with 2 and 3 parts x part kinds (host value with a logging to_string, effectful call, block with effect), the equality of the host type; {} bare variable / path as a constructor component assigned by a later component; {} records: every written order of R, P (two fields), G[T], H[T] x shapes of literal, 3 fields x 4 shapes of reading / assigning a field; {} matches: pattern variant x examinee variant, one named variant + `_`, guarded `_` between two variants; {} desugared operators: string + with a lazy left operand x effects nested in the right operand)", corpus().len(), corpus_clauses().len(), corpus_implicit().len(), corpus_bare().len(), corpus_records().len(), corpus_matches().len(), corpus_desugared().len()));
+            rep.notes.push(format!("programs generated: {from}; argument tuples per program: 8; corpus programs: {} ({} one per clause of the statement; {} implicit host calls: f-strings with 2 and 3 parts x part kinds (host value with a logging to_string, effectful call, block with effect), the equality of the host type; {} bare variable / path as a constructor component assigned by a later component; {} records: every written order of R, P (two fields), G[T], H[T] x shapes of literal, 3 fields x 4 shapes of reading / assigning a field; {} matches: pattern variant x examinee variant, one named variant + `_`, guarded `_` between two variants; {} desugared operators: string + and list + with a lazy left operand x effects nested in the right operand)", corpus().len(), corpus_clauses().len(), corpus_implicit().len(), corpus_bare().len(), corpus_records().len(), corpus_matches().len(), corpus_desugared().len()));
         }
         Some("worker") => {
             if std::env::var("C08_VERBOSE").is_err() {
